@@ -98,7 +98,12 @@ class TermPeerWorld(PeerWorld):
                 events.append(('peer', 'refuse'))
         elif self.opts['refuse'] and not self.done['refuse'] and self.started:
             events.append(('peer', 'refuse'))
-        if self.opts['stray'] and not self.done['stray'] and self.established():
+        if self.opts['stray'] == 'ack-final-early':
+            # a final acknowledgement for the transfer that is being sent, before its final segment has been written
+            tmp = getattr(self.handler(), '_tx_tmp', None)
+            if not self.done['stray'] and self.started and tmp is not None and getattr(tmp, 'transfer_id', None) == self.started[-1]:
+                events.append(('peer', 'stray'))
+        elif self.opts['stray'] and not self.done['stray'] and self.established():
             events.append(('peer', 'stray'))
         return events
 
@@ -118,7 +123,11 @@ class TermPeerWorld(PeerWorld):
             elif event[1] == 'stray':
                 # an out-of-place message (acknowledgement / refusal of a transfer that does not exist)
                 self.done['stray'] = True
-                self.peer_write(T.enc_ack(3, 99, 2) if self.opts['stray'] == 'ack' else T.enc_refuse(1, 99))
+                if self.opts['stray'] == 'ack-final-early':
+                    tid = self.started[-1]
+                    self.peer_write(T.enc_ack(1, tid, len(bytes.fromhex(self.params['queued'][tid - 1]))))
+                else:
+                    self.peer_write(T.enc_ack(3, 99, 2) if self.opts['stray'] == 'ack' else T.enc_refuse(1, 99))
             elif event[1] == 'refuse':
                 self.done['refuse'] = True
                 tid = self.started[-1]
@@ -158,6 +167,14 @@ class TermPeerWorld(PeerWorld):
             out.append(self.v('second-sess-term', dict(), 'R wrote SESS_TERM %d times' % self.r_term_seen))
         if self.start_after_term:
             out.append(self.v('transfer-started-after-sess-term', dict(), 'transfers started %r' % (self.started,)))
+        # (what the endpoint has produced runs ahead of what is on the wire, so "being sent" is read from the endpoint:
+        # the transfer it is still cutting into segments)
+        tmp = getattr(self.handler(), '_tx_tmp', None)
+        for sig in self.signals:
+            if sig[0] == 'send_bundle_finished' and sig[3] == 'success' and tmp is not None and str(getattr(tmp, 'transfer_id', None)) == str(sig[1]):
+                out.append(self.v('transfer-reported-finished-before-it-was-sent', dict(),
+                                  'transfer %s reported as sent successfully while the endpoint is still producing its segments (written so far: %r)'
+                                  % (sig[1], {k: len(v) for (k, v) in self.sent_data.items()})))
         fins = [sig[1] for sig in self.signals if sig[0] == 'send_bundle_finished']
         for bid in set(fins):
             if fins.count(bid) > 1:
